@@ -6,7 +6,7 @@
    so they accept every valid value).  The statement "every valid document is accepted" for whole
    schemas (C02_full below) is decided on the implementation by the correspondence run together with
    the reference semantics Spec/Valid.v; its general proof over all schemas is not done (partial). *)
-From GJS Require Import Base Regex Schema GoType Gen Exec Valid ExecP GenP CoreP MethodP.
+From GJS Require Import Base Regex Schema GoType Gen Exec Valid ExecP GenP CoreP MethodP LevelP.
 
 Definition C02_full : Prop :=
   forall fmt_ok idf cf defs root name p t j,
@@ -44,6 +44,44 @@ Theorem C02_generated_checks_only : forall idf cf defs f self sub s scope t b,
   exists fs vs, t = TStruct [] fs (Some vs) /\ forallb check_only vs = true /\ find f_addl fs = None.
 Proof. exact object_method_checks_only. Qed.
 Print Assumptions C02_generated_checks_only.
+
+(* one level of an object schema against the reference semantics, both directions: IF the checks attached to every property are exact on
+   that property's values (C05 / C06 / C07 for scalars, strings, arrays; this theorem itself for a nested object), THEN the declared struct
+   accepts a JSON object iff it is valid under the schema.  Guards as hypotheses: no default, no additionalProperties keyword, required keys
+   are declared, keys are distinct, field names are distinct and non-empty (NamesP), not --only-models. *)
+Theorem C02_level_exact : forall idf cf defs fmt_ok env sdefs f fd fv self sub s scope t b kv,
+  g_only_models cf = false -> scope <> [] ->
+  plain_object s -> c_types (s_con s) = [SObject] -> s_addl s = None -> s_addl_false s = false ->
+  (forall k p, In (k, p) (s_props s) -> c_default (s_con p) = None) ->
+  NoDup (map fst (s_props s)) -> NoDup (map fst kv) ->
+  incl (c_required (s_con s)) (map fst (s_props s)) ->
+  NoDup (map fst (prop_names idf (s_props s))) -> (forall fname kp, In (fname, kp) (prop_names idf (s_props s)) -> fname <> []) ->
+  gen idf cf defs (S (S f)) MDeclared self sub s scope = Done (t, b) ->
+  (forall fname k p ty bp, In (fname, (k, p)) (prop_names idf (s_props s)) ->
+     gen idf cf defs f MInline self false p (scope ++ fname) = Done (ty, bp) ->
+     match lookup k kv with
+     | Some x => field_ok (dec fmt_ok env fd) zero (default_val env dv_fuel) kv (pair_of (make_field defs (s_con s) self fname k p ty bp)) = valid fmt_ok sdefs fv p x
+     | None => mem k (c_required (s_con s)) = false ->
+               field_ok (dec fmt_ok env fd) zero (default_val env dv_fuel) kv (pair_of (make_field defs (s_con s) self fname k p ty bp)) = true
+     end) ->
+  is_ok (dec fmt_ok env (S fd) t (JObj kv)) = valid fmt_ok sdefs (S fv) s (JObj kv).
+Proof. exact level_exact. Qed.
+Print Assumptions C02_level_exact.
+
+(* the field-level hypothesis discharged for the three scalar kinds: objects of constrained strings, integers and booleans, end to end *)
+Theorem C02_scalar_objects_exact : forall idf cf defs fmt_ok env sdefs f fd fv self sub s scope t b kv,
+  g_minsized cf = false -> g_only_models cf = false -> scope <> [] ->
+  plain_object s -> c_types (s_con s) = [SObject] -> s_addl s = None -> s_addl_false s = false ->
+  (forall k p, In (k, p) (s_props s) -> str_leaf p \/ int_leaf p \/ bool_leaf p) ->
+  NoDup (map fst (s_props s)) -> NoDup (map fst kv) ->
+  incl (c_required (s_con s)) (map fst (s_props s)) ->
+  NoDup (map fst (prop_names idf (s_props s))) -> (forall fname kp, In (fname, kp) (prop_names idf (s_props s)) -> fname <> []) ->
+  (forall k p x, In (k, p) (s_props s) -> lookup k kv = Some x ->
+     x <> JNull /\ (str_leaf p -> forall s0, x = JStr s0 -> utf8_len s0 = length s0) /\ (int_leaf p -> int_value x)) ->
+  gen idf cf defs (S (S (S f))) MDeclared self sub s scope = Done (t, b) ->
+  is_ok (dec fmt_ok env (S (S (S fd))) t (JObj kv)) = valid fmt_ok sdefs (S (S fv)) s (JObj kv).
+Proof. exact scalar_object_exact. Qed.
+Print Assumptions C02_scalar_objects_exact.
 
 Theorem C02_string : forall fmt_ok env f s, dec fmt_ok env (S f) TString (JStr s) = Ok (GS s).
 Proof. exact dec_string_lossless. Qed.
